@@ -289,3 +289,22 @@ Definition spec_percent (memtype : bytes) (full : list Z) (total : Z) : outcome 
   | Some i => Val (nth i full 0 * 100, total)
   | None => Exc ValueError
   end.
+
+(* ------------------------------------------------ memory_percent over a history *)
+(* the denominator is the total physical memory reported by the LAST virtual_memory() call
+   ([last]); when there was none, memory_percent asks for it itself (and that is a call) *)
+Fixpoint spec_hist (full : list Z) (last : option Z) (kernel : Z) (ops : list hop) : list (outcome (Z * Z)) :=
+  match ops with
+  | [] => []
+  | HVM :: r => spec_hist full (Some kernel) kernel r
+  | HSet t :: r => spec_hist full last t r
+  | HPct n :: r =>
+    match index_of n full_names with
+    | None => Exc ValueError :: spec_hist full last kernel r
+    | Some i =>
+      let t := match last with Some l => l | None => kernel end in
+      Val (nth i full 0 * 100, t) :: spec_hist full (Some t) kernel r
+    end
+  end.
+Definition hist_ok (ops : list hop) : bool :=
+  forallb (fun o => match o with HSet t => 0 <? t | _ => true end) ops.
